@@ -585,6 +585,35 @@ def np_argpartition(ex, st, a, kth, **kw):
     return ArrayVal((n,), lambda q: P(to_int(q)), 'int')
 
 
+def itertools_groupby(ex, st, a, key=None, **kw):
+    """itertools.groupby(seq) without key over a 1-d array of symbolic length: one (key, group) pair per maximal run of equal
+    elements — i.e. per position t with t == 0 or a[t] != a[t-1], in order (filter model: SRC strictly increasing, sound, complete)"""
+    if key is not None:
+        raise Unsupported('groupby with a key function')
+    arr = as_array(st, a)
+    if arr.ndim != 1:
+        raise Unsupported('groupby of an n-d array')
+    n = to_int(arr.shape[0])
+    K = z3.Int(fresh_name('n_runs'))
+    SRC = z3.Function(fresh_name('run_start'), z3.IntSort(), z3.IntSort())
+    POS = z3.Function(fresh_name('run_of'), z3.IntSort(), z3.IntSort())
+    j, j2, i = z3.Ints('j j2 i')
+    cond = lambda t: z3.Or(t == 0, to_z3(s_ne(arr.get(t), arr.get(t - 1))))
+    st.assume(z3.And(K >= 0, K <= n))
+    st.assume(z3.ForAll([j], z3.Implies(z3.And(j >= 0, j < K), z3.And(SRC(j) >= 0, SRC(j) < n, cond(SRC(j)), POS(SRC(j)) == j)), patterns=[SRC(j)]))
+    st.assume(z3.ForAll([j, j2], z3.Implies(z3.And(j >= 0, j < j2, j2 < K), SRC(j) < SRC(j2)), patterns=[z3.MultiPattern(SRC(j), SRC(j2))]))
+    body = z3.Implies(z3.And(i >= 0, i < n, cond(i)), z3.And(POS(i) >= 0, POS(i) < K, SRC(POS(i)) == i))
+    try:
+        st.assume(z3.ForAll([i], body, patterns=[POS(i)] + infer_patterns(to_z3(s_ne(arr.get(i), 0)), [i])))
+    except z3.Z3Exception:
+        st.assume(z3.ForAll([i], body, patterns=[POS(i)]))
+    ex.assumed.append('model: itertools.groupby(seq) yields one (key, group) pair per maximal run of equal elements, in order')
+    res = ArrayVal((K,), lambda q: (arr.get(SRC(to_int(q))), Opaque('group')), 'obj')
+    res.src = lambda q: SRC(to_int(q))
+    res.is_list = False
+    return res
+
+
 def torch_cat(ex, st, parts, axis=0, dim=None, **kw):
     ex.assumed.append('model: torch tensor operations used here (cat, argmax, slicing, masked assignment, comparison) behave as their numpy counterparts')
     return np_concatenate(ex, st, list(parts), axis=dim if dim is not None else axis, **kw)
@@ -627,6 +656,9 @@ def np_max(ex, st, a, axis=None, **kw):
         n, m = arr.shape
         return ArrayVal((n,), lambda i: _argext_concrete(ArrayVal((m,), lambda j: arr.get(i, j), arr.dtype),
                                                          lambda x, b: s_lt(b, x))[1], arr.dtype)
+    if arr.ndim == 2 and axis in (1, -1):
+        am = _sym_argmax_axis(ex, st, arr, 1, kw.get('_node'))
+        return ArrayVal((arr.shape[0],), lambda i: arr.get(i, am.get(i)), arr.dtype)
     if arr.ndim == 2 and axis is None:
         # maximum over a 2-d region of symbolic shape: m bounds every entry and is attained; a zero-size array raises
         # ValueError in numpy: that path is not followed (the exception clause is not part of the range claims)
@@ -790,7 +822,7 @@ def _logical(fn):
 LIB = {
     'np.logical_and': _logical(band), 'np.logical_or': _logical(bor), 'np.logical_not': _logical(bnot),
     'np.exp': np_exp, 'math.exp': np_exp, 'np.logaddexp': np_logaddexp, 'np.nonzero': np_nonzero,
-    'torch.cat': torch_cat, 'torch.argmax': torch_argmax, 'np.ceil': np_ceil, 'np.floor': np_floor, 'np.argpartition': np_argpartition, 'np.unravel_index': np_unravel_index, 'math.ceil': np_ceil, 'math.floor': np_floor,
+    'torch.cat': torch_cat, 'torch.argmax': torch_argmax, 'np.ceil': np_ceil, 'np.floor': np_floor, 'np.argpartition': np_argpartition, 'itertools.groupby': itertools_groupby, 'np.unravel_index': np_unravel_index, 'math.ceil': np_ceil, 'math.floor': np_floor,
     'np.array': np_array, 'np.asarray': np_asarray, 'np.fromiter': lambda ex, st, v, **kw: np_array(ex, st, v), 'np.arange': np_arange, 'np.full': np_full,
     'np.ones': np_ones, 'np.zeros': np_zeros, 'np.zeros_like': np_zeros_like, 'np.minimum': np_minimum,
     'np.maximum': np_maximum, 'np.copy': np_copy, 'np.sum': np_sum, 'np.any': np_any, 'np.all': np_all,
